@@ -20,6 +20,9 @@ Inductive sysflag := FAnswered | FDeleted | FDraft | FFlagged | FSeen | FRecent.
 
 Inductive hfield := HBcc | HCc | HFrom | HSubject | HTo.
 
+Inductive dop := DLt | DEq | DGe.        (* '<'  '='  '>=' of DateSearchCriteria *)
+Inductive sop := SzLt | SzGt.            (* '<'  '>' of SizeSearchCriteria *)
+
 Inductive key :=
 | KAll
 | KSet (f : sysflag)          (* ANSWERED DELETED DRAFT FLAGGED SEEN RECENT *)
@@ -108,13 +111,15 @@ Fixpoint compile (k : key) : skey :=
   | KAnd ks => SKSet (map compile ks) false
   end.
 
-(* header names reach  name.encode('ascii')  in HeaderSearchCriteria *)
+(* header names reach  name.encode('ascii')  in HeaderSearchCriteria; a
+   parenthesised list has at least one key (RFC 3501 grammar, enforced by the
+   parser: KeyTable.keyset_nonempty) *)
 Fixpoint wf_key (k : key) : bool :=
   match k with
   | KHeader n _ => is_ascii n
   | KNot k' => wf_key k'
   | KOr a b => wf_key a && wf_key b
-  | KAnd ks => forallb wf_key ks
+  | KAnd ks => match ks with [] => false | _ => forallb wf_key ks end   (* "()" is refused *)
   | _ => true
   end.
 
